@@ -228,6 +228,10 @@ where
 
         metadata.update(is_mapped, chunk);
     }
+
+    pub(crate) fn finish(&mut self, min_shift: u8, depth: u8) {
+        self.index.finish(min_shift, depth);
+    }
 }
 
 impl<I> binning_index::ReferenceSequence for ReferenceSequence<I>
@@ -244,6 +248,25 @@ const M: usize = NonZero::new(8).unwrap().get();
 // parent of i = floor((i - 1) / M)
 pub(crate) fn parent_id(id: usize) -> Option<usize> {
     if id > 0 { Some((id - 1) / M) } else { None }
+}
+
+// Returns the interval [start, end) (0-based) covered by the bin with the given ID.
+pub(crate) fn bin_interval(id: usize, min_shift: u8, depth: u8) -> (usize, usize) {
+    // The ID of the first bin at level `l` is (8^l - 1) / 7.
+    fn first_id(level: u8) -> usize {
+        ((1 << (usize::from(level) * 3)) - 1) / 7
+    }
+
+    let mut level = depth;
+
+    while level > 0 && id < first_id(level) {
+        level -= 1;
+    }
+
+    let s = usize::from(min_shift) + 3 * usize::from(depth - level);
+    let start = (id - first_id(level)) << s;
+
+    (start, start + (1 << s))
 }
 
 // `CSIv1.pdf` (2020-07-21)
